@@ -54,6 +54,14 @@ def handle(ch, out, ops, cfgfile=None):
         if "!" in op:
             op, k = op.split("!")
             crash = int(k)
+        if op == "wait":
+            # two hours pass by this process' clock, measured from the last write of the configuration file
+            import harness.boundary as hb
+            try:
+                hb.VT[0] = os.path.getmtime(os.path.join(out, "cluster_config.json")) + 7200.0
+            except OSError:
+                pass
+            continue
         if cluster is None and op not in ("load", "loadp", "recreate"):
             break          # the load failed: there is no Cluster object to operate on
         if op == "demote" and not promoted:
